@@ -119,6 +119,27 @@ pub fn gen_c01(rng: &mut Rng, tier: Tier) -> Scenario {
         Tier::Thorough => 1000,
     };
     let mut sc = gen_scenario(rng, true, false, false, 4, max_steps);
+    // "clamp storm": zero-temperature stages with the largest step sizes drive site and cell
+    // parameters onto their bounds (x = +-1/2, orientation 0 / 2pi, cell angle pi/6), which is how
+    // copies displaced exactly along an edge direction arise
+    if rng.chance(0.3) {
+        sc.shape = ShapeSpec::Polygon(*rng.pick(&[3usize, 4, 6, 6, 6, 8, 12]));
+        sc.group = rng.pick(&["p2", "p2", "p1g1", "p2mg", "p2gg", "p1m1", "p2mm"]).to_string();
+        sc.chain.clear();
+        for _ in 0..rng.range_u64(1, 2) {
+            sc.chain.push(Op::Stage(OptCfg {
+                steps: *rng.pick(&[300u64, 500, 1000]).min(&max_steps),
+                inner: *rng.pick(&[100u64, 300, 1000]),
+                kt_start: 0.0,
+                kt_finish: None,
+                kt_ratio: *rng.pick(&[Some(0.1), Some(0.0), None]),
+                max_step: *rng.pick(&[1.0, 1.0, 0.5]),
+                convergence: None,
+                seed: rng.below(1 << 32),
+            }));
+        }
+        return sc;
+    }
     // bias towards the thin regions: elongated trimers, skewed / elongated cells, copies near
     // opposite faces, orientations at multiples of pi/n, each followed by a compression stage
     if rng.chance(0.5) {
